@@ -1,12 +1,19 @@
 #!/bin/sh
-# tools/seedall.sh [tier] : every seeded change against the check of its property; prints one line each
-# and a summary.  Applies each patch to /repo, runs the check, restores /repo (see seedtest.sh).
+# tools/seedall.sh [tier] [name-pattern] : every seeded change against the check of its property (meta.json
+# "property", or "caught_by" when another property's check is the one documented to catch it); prints one
+# line each and a summary.  Applies each patch to /repo, runs the check, restores /repo (see seedtest.sh).
+# A change whose meta.json has "obsolete" (a later fix: commit made it harmless) is skipped.
 TIER=${1:-quick}
+PAT=${2:-*}
 cd /verif || exit 2
 tot=0; det=0; missed=""
-for d in seeded/*/; do
+for d in seeded/$PAT/; do
 	n=$(basename "$d")
-	p=$(python3 -c "import json;print(json.load(open('/verif/seeded/$n/meta.json'))['property'])")
+	p=$(python3 -c "
+import json
+m=json.load(open('/verif/seeded/$n/meta.json'))
+print('OBSOLETE' if m.get('obsolete') else m.get('caught_by') or m['property'])")
+	if [ "$p" = OBSOLETE ]; then echo "$n: skipped (obsolete)"; continue; fi
 	r=$(sh tools/seedtest.sh "/verif/seeded/$n" "$p" "$TIER" 2>&1 | tail -1)
 	tot=$((tot + 1))
 	case "$r" in
@@ -15,4 +22,4 @@ for d in seeded/*/; do
 	esac
 	echo "$n $p: $r"
 done
-echo "SUMMARY: $det of $tot seeded changes detected by the check of their own property ($TIER tier); not detected:${missed:- none}"
+echo "SUMMARY: $det of $tot seeded changes detected ($TIER tier); not detected:${missed:- none}"
